@@ -123,26 +123,40 @@ def build_call(op, key, rng, vary):
     raise ValueError(op)
 
 
-def run_call(res, stack, servers, cfg, op, args, kw, tag):
+def make_world(stack, servers, cfg):
     cfgl = dict(cfg)
     spec = {"stack": stack, "servers": servers, "cfg": {k: v for k, v in cfgl.items() if k != "serde"}, "prefill": {}}
     w = driver.World(spec)
     if cfgl.get("serde") == "strserde":
         _set_serde(w.obj, StrSerde())
+    w.net.keep_sent = True
+    return w
+
+
+def run_call(res, stack, servers, cfg, op, args, kw, tag, w=None, callno=0, case=None):
+    """one public call, judged on the bytes it wrote; with w given the call runs on that (already used) client"""
+    cfgl = dict(cfg)
+    own = w is None
+    if own:
+        w = make_world(stack, servers, cfg)
     net = w.net
-    net.keep_sent = True
-    out = w.call(0, (op, args, kw))
-    w.close()
-    sent = b"".join(b for _, _, b in net.sentlog)
+    s0 = len(net.sentlog)
+    m0 = {id(srv): (len(srv.cmdlog), len(srv.malformed)) for srv in w.servers.values()}
+    out = w.call(callno, (op, args, kw))
+    if own:
+        w.close()
+    sent = b"".join(b for _, _, b in net.sentlog[s0:])
     cmds = []
     malformed = []
     leftovers = []
     for srv in w.servers.values():
-        cmds.extend(c.sig() for c in srv.cmdlog)
-        malformed.extend(srv.malformed)
+        c0, ml0 = m0[id(srv)]
+        cmds.extend(c.sig() for c in srv.cmdlog[c0:])
+        malformed.extend(srv.malformed[ml0:])
         leftovers.extend(s.buf for s in srv.sessions if s.buf)
     legal, want = intent.intended(op, args, kw, cfgl)
-    case = (stack, len(servers), sorted(cfgl.items()), op, args, kw)
+    if case is None:
+        case = (stack, len(servers), sorted(cfgl.items()), op, args, kw)
     res.count("commands_parsed", len(cmds))
     multi = op in ("get_many", "gets_many", "set_many", "delete_many")
     is_input_err = out[0] == "exc" and out[1] == "MemcacheIllegalInputError"
@@ -288,7 +302,7 @@ def shard(tier, seed, idx, n):
                         res.case((stack, len(servers), sorted(cfg.items()), op, repr(args), sorted(kw.items(), key=repr)))
     # 3. multi-key calls with one bad key at each position
     goods = ["g1", b"g2", "g3", "g4"]
-    bads = [b"", b" ", b"a b", b"a\r\nb", "k" * 251, b"\x00", "é", b"\t", b"\r\n"]
+    bads = [b"", b" ", b"a b", b"a\r\nb", "k" * 251, b"\x00", "é", b"\t", b"\r\n", "k" * 249, b"B" * 250, "k" * 51, b"P" * 51]
     for stack, servers in STACKS:
         for cfg in CFGS[:5]:
             for op in ("get_many", "gets_many", "set_many", "delete_many"):
@@ -325,13 +339,92 @@ def shard(tier, seed, idx, n):
             if stack == "client":
                 run_call(res, stack, servers, {}, "cache_memlimit", (v,), {}, "memlimit")
                 res.case((stack, "cache_memlimit", repr(v)))
+    # 5. sequences of calls on ONE client (validation must not depend on what the client did before), with stats /
+    #    cache_memlimit arguments that reuse key tokens in between; prefix-prefixed keys and keys at the prefix boundary
+    for stack, servers in STACKS:
+        for ci, cfg in enumerate(CFGS + [{"ignore_exc": True}, {"key_prefix": b"app:", "ignore_exc": True}]):
+            if cfg.get("ignore_exc") and stack != "client":
+                continue        # PooledClient/HashClient document ignore_exc as 'any error is a miss' (not judged here)
+            for rep in range(3 if tier == "quick" else 40):
+                work += 1
+                if work % n != idx:
+                    continue
+                run_sequence(res, stack, servers, cfg, random.Random(seed * 43 + work), tier)
     res.extra["exhaustive"] = True
     res.extra["exhaustive_part"] = "all 1- and 2-byte keys over 11 byte classes on Client; one bad key at every position of 1..4-key calls"
     return res
 
 
+def seq_plan(stack, cfg, rng, tier):
+    prefix = cfg.get("key_prefix", b"")
+    room = 250 - len(prefix)
+    toks = ["items", "settings", "t1", b"t2", "k" * max(1, room), "k" * (room + 1), b"K" * max(1, room - 1) + b"\r",
+            "bad key", b"", "ok"]
+    if prefix:
+        try:
+            toks += [prefix + b"x", prefix.decode("ascii") + "y", prefix, prefix + prefix + b"z"]
+        except UnicodeDecodeError:
+            pass
+    single = [o for o in KEY_OPS if o not in ("get_many", "gets_many", "set_many", "delete_many")
+              and not (stack.startswith("hash") and o.startswith("__"))]
+    plan = []
+    for _ in range(rng.randrange(8, 30)):
+        c = rng.random()
+        tok = rng.choice(toks)
+        if c < 0.2 and isinstance(tok, str) and tok and " " not in tok and len(tok) < 200:
+            plan.append(("stats", (tok,), {}))            # not judged: its argument is not a key
+        elif c < 0.25 and stack == "client":
+            plan.append(("cache_memlimit", (rng.choice([64, 128]),), {}))
+        elif c < 0.45:
+            op = rng.choice(("get_many", "gets_many", "delete_many", "set_many"))
+            ks = [rng.choice(toks) for _ in range(rng.randrange(1, 4))]
+            ks = list(dict.fromkeys(k for k in ks if isinstance(k, (str, bytes))))
+            # never spell one wire key both as str and bytes in one call
+            seen, uniq = set(), []
+            for k in ks:
+                kb = k.encode() if isinstance(k, str) else k
+                if kb not in seen:
+                    seen.add(kb)
+                    uniq.append(k)
+            if op == "set_many":
+                plan.append((op, ({k: b"v" for k in uniq},), rng.choice(({}, {"noreply": False}))))
+            else:
+                plan.append((op, (uniq,), {} if op != "delete_many" else rng.choice(({}, {"noreply": False}))))
+        else:
+            op = rng.choice(single)
+            a, kw = build_call(op, tok, rng, "key")
+            plan.append((op, a, kw))
+    return plan
+
+
+def run_sequence(res, stack, servers, cfg, rng, tier, plan=None):
+    plan = plan if plan is not None else seq_plan(stack, cfg, rng, tier)
+    w = make_world(stack, servers, cfg)
+    case = ("sequence", stack, len(servers), sorted(cfg.items()), plan)
+    try:
+        for i, (op, a, kw) in enumerate(plan):
+            if op == "stats":
+                w.call(i, (op, a, kw))
+                continue
+            before = res.counters.get("violations_seen", 0)
+            run_call(res, stack, servers, cfg, op, a, kw, "in-sequence", w=w, callno=i, case=case)
+            res.case(("seq", stack, len(servers), sorted(cfg.items()), i, op, repr(a), sorted(kw.items(), key=repr)))
+            if res.counters.get("violations_seen", 0) > before or any(srv.malformed for srv in w.servers.values()):
+                break
+        res.count("call_sequences_on_one_client")
+    finally:
+        w.close()
+
+
 def replay(case):
     res = common.Result()
+    if case[0] == "sequence":
+        _, stack, nserv, cfg, plan = case
+        run_sequence(res, stack, [("mc1", 11211), ("mc2", 11211)][:nserv], dict(cfg), random.Random(0), "quick", plan=plan)
+        for c in REQUIRED_COUNTERS:
+            res.count(c)
+        res.nontrivial.update({1, 2})
+        return res
     stack, nserv, cfg, op, args, kw = case
     servers = [("mc1", 11211), ("mc2", 11211)][:nserv]
     run_call(res, stack, servers, dict(cfg), op, args, dict(kw) if not isinstance(kw, dict) else kw, "replay")
